@@ -45,6 +45,7 @@ func genPremium(t *rapid.T, limit int64) int64 {
 func TestC12InitiatorBounds(t *testing.T) {
 	col := stats.Get("C12.initiator")
 	rapid.Check(t, func(t *rapid.T) {
+		sim.CaseStart(t)
 		w := sim.NewWorld()
 		defer w.Close()
 		a := w.AddNode("alice")
@@ -221,6 +222,7 @@ func mustHex(s string) []byte {
 func TestC12ResponderPremium(t *testing.T) {
 	col := stats.Get("C12.responder")
 	rapid.Check(t, func(t *rapid.T) {
+		sim.CaseStart(t)
 		w := sim.NewWorld()
 		defer w.Close()
 		a := w.AddNode("alice")
